@@ -1122,7 +1122,11 @@ class Molecules:
         if self.count() == 0:
             feat = other.features
         else:
-            feat = pl.concat([self.features, other.features], how="diagonal")
+            other_feat = other.features
+            if len(other_feat.columns) == 0 and other.count() > 0:
+                # no features at all is a subset of the features: fill with null
+                other_feat = self.features.clear(other.count())
+            feat = pl.concat([self.features, other_feat], how="diagonal")
             if len(feat.columns) != len(self.features.columns):
                 extra = set(other.features.columns) - set(self.features.columns)
                 raise ValueError(
